@@ -252,24 +252,11 @@ func runC10(cx *CheckCtx) {
 			for _, s := range a.RealEffects() {
 				if s.Effect == "put" && keyFamily(s.Args[1]) == pfxBalance {
 					v := a.canonAt(s, s.Args[2])
-					var base *Term
-					if v.Op == "sum" && len(v.Args) == 2 {
-						for _, x := range v.Args {
-							if _, isC := x.IntConst(); !isC {
-								base = x
-							}
-						}
-					}
-					good := base != nil && v == tb.binop(token.ADD, base, tb.constInt(d), intType) && s.Args[1] == tb.cat(tb.constBytes(pfxBalance), acc)
-					if good {
-						for _, alt := range tb.Alts(base) {
-							if n, isC := alt.IntConst(); isC && n == 0 {
-								continue
-							}
-							if alt.Op == "read" && alt.Args[0] == tb.cat(tb.constBytes(pfxBalance), acc) {
-								continue
-							}
-							good = false
+					good := s.Args[1] == tb.cat(tb.constBytes(pfxBalance), acc) && storedPlusD(a, s.In, v, d, tb.cat(tb.constBytes(pfxBalance), acc))
+					if os.Getenv("DBGLEDGER") != "" {
+						fmt.Println("LEDGER d=", d, "v=", v, "alts=", termList(tb.Alts(v)), "key=", s.Args[1], "good=", good)
+						for _, l := range s.In.dump(a.lt) {
+							fmt.Println("     ", l)
 						}
 					}
 					if !good {
@@ -302,7 +289,11 @@ func runC10(cx *CheckCtx) {
 				okB = false
 			} else {
 				v := a.canonAt(bPut, bPut.Args[2])
-				if !a.holdsAt(bPut.In, -a.litEqC(v, 0)) || !a.holdsAt(bDel.In, a.litEqC(a.Canon(bDel.In, v), 0)) {
+				// (the test may be known about the variable or about what the state has rewritten it to)
+				if !a.holdsAt(bPut.In, -a.litEqC(v, 0)) || !(a.holdsAt(bDel.In, a.litEqC(a.Canon(bDel.In, v), 0)) || a.holdsAt(bDel.In, a.litEqC(v, 0))) {
+					if os.Getenv("DBGLEDGER") != "" {
+						fmt.Println("LEDGER zero-test fails: v=", v, "canon at del=", a.Canon(bDel.In, v), a.holdsAt(bPut.In, -a.litEqC(v, 0)), a.holdsAt(bDel.In, a.litEqC(a.Canon(bDel.In, v), 0)))
+					}
 					okB = false
 				}
 				for _, ex := range a.Exits() {
@@ -770,23 +761,23 @@ func runC10(cx *CheckCtx) {
 					}
 					nHdr++
 					ct := ptb.Term(ptb.root, ifi.Cond)
-					// i >= first  ≡  first <= i
-					good := ct.Op == "bin" && len(ct.Args) == 2 && (ct.Name == "<=" && ct.Args[0] == fnParam(ptb, fn, 1) && ct.Args[1].Op == "phi")
-					if good {
-						i := ct.Args[1]
-						frs := fnParam(ptb, fn, 2)
-						init, step := false, false
-						for _, al := range ptb.Alts(i) {
-							switch {
-							case al == ptb.binop(token.SUB, ptb.mk("len", "", 0, frs), ptb.constInt(1), intType):
-								init = true
-							case al == ptb.binop(token.SUB, i, ptb.constInt(1), intType):
-								step = true
-							default:
-								good = false
-							}
+					// the loop variable runs from len(fragments)−1 down to `first` inclusive, whatever the
+					// spelling of the test (i >= first, first <= i, i > first-1, …)
+					good := false
+					for _, ins := range h.Instrs {
+						phi, isPhi := ins.(*ssa.Phi)
+						if !isPhi || !isInteger(phi.Type()) {
+							continue
 						}
-						good = good && init && step
+						k := ptb.Term(ptb.root, phi)
+						start, step, cond, ok := loopVarOf(ptb, k)
+						if !ok {
+							continue
+						}
+						frs := fnParam(ptb, fn, 2)
+						if step == -1 && start == ptb.binop(token.SUB, ptb.mk("len", "", 0, frs), ptb.constInt(1), intType) && boundOf(ptb, k, cond, false) == fnParam(ptb, fn, 1) {
+							good = true
+						}
 					}
 					if !good {
 						okLoop, whyLoop = false, "the loop does not run from the last label down to `first` ("+ct.pretty()+")"
@@ -1136,6 +1127,11 @@ func runC12(cx *CheckCtx) {
 			if okK {
 				id := ps[4].Args[0]
 				cx.decide(a.holdsAt(put.In, a.litLtC(id, 16)), "record-add", "nns.AddRecord/limit", "id ≤ 15 established at the store", "a 17th record of one type can be stored", put.Where(w))
+				// … and "at most 16" means sixteen can be had: a fault decided on the count alone is raised only
+				// for id ≥ 16 (or, for a CNAME, for id ≥ 1)
+				if nl, okL := panicOnlyIf(a, m.Fn, id, nil, -a.litLtC(id, 16), a.litEqC(typ, typCNAME)); nl > 0 {
+					cx.decide(okL, "record-add", "nns.AddRecord/limit-reached", "refused for the number of records only from the 17th on (a second CNAME excepted)", "a record can be refused for 'too many records' although fewer than 16 of its type exist: the documented capacity of 16 values per name and type is not available", put.Where(w))
+				}
 				cx.decide(a.holdsAt(put.In, -a.litEqC(typ, typCNAME), a.litEqC(id, 0)), "record-add", "nns.AddRecord/cname", "CNAME ⇒ id == 0 established", "a second CNAME record can be stored", put.Where(w))
 				// id counts existing records of the scan of (token, name, type)
 				okId := id.Op == "phi"
@@ -1166,6 +1162,45 @@ func runC12(cx *CheckCtx) {
 					where := put.Where(w)
 					if memIf != nil {
 						where = w.pos(memIf.Cond.Pos())
+					}
+					// … and the duplicate fault is reached on the *equal* side of every comparison that gates
+					// it: `r.Name != name && … && r.Data == data` never fires for the records of the scan
+					// (they all carry the name and type they were found under), so duplicates would pass
+					if okDist && memIf != nil {
+						if hdr := innermostLoop(memIf.Block()); hdr != nil {
+							in := loopBlocks(hdr)
+							var rejects []*ssa.BasicBlock
+							for _, pb := range m.Fn.Blocks {
+								if _, isPanic := pb.Instrs[len(pb.Instrs)-1].(*ssa.Panic); !isPanic {
+									continue
+								}
+								for _, sd := range []int{0, 1} {
+									if viaEdge(memIf.Block(), sd, pb) {
+										rejects = append(rejects, pb)
+									}
+								}
+							}
+							for g := range in {
+								gi, isIf := g.Instrs[len(g.Instrs)-1].(*ssa.If)
+								if !isIf {
+									continue
+								}
+								bo, isB := gi.Cond.(*ssa.BinOp)
+								if !isB || (bo.Op != token.EQL && bo.Op != token.NEQ) {
+									continue
+								}
+								eqSide := 0
+								if bo.Op == token.NEQ {
+									eqSide = 1
+								}
+								for _, rb := range rejects {
+									if viaEdge(g, 1-eqSide, rb) {
+										okDist = false
+										where = w.pos(bo.Pos())
+									}
+								}
+							}
+						}
 					}
 					cx.decide(okDist, "record-add", "nns.AddRecord/distinct", "the record is stored only after its data was compared with every existing record of the type and found different", "a value that is already recorded for the name and type can be added again (the duplicate test is missing, inverted or does not cover every record)", where)
 				}
